@@ -26,7 +26,9 @@ def rule_check_first(ck, F):
         ck.undecided("R1", "sender", "-", f"expected one sending function in the helper module, found {len(senders)}")
         return
     fb = senders[0]
-    B = M.Body(fb)
+    # the sender with the module's private helpers taken in (sync helpers, awaited private async fns); other entry functions stay calls
+    from engine.rulekit import inline as I
+    B = M.Body(I.Inliner(F.lib, stop=lambda p: "CheckRestrictions" in p or H.is_entry(F, p)).body(fb))
     short = fb["path"].replace(H.HELPERS_MOD + "::", "")
     checks = B.calls_to(CHECK)
     good = []
